@@ -1,5 +1,81 @@
-/- Line-protocol driver for the C02 model (stub until the model exists). -/
-import ForML.Model.Sexp
-open ForML
+/-
+Line-protocol driver for the C02 models (dask job linking + evaluation, pyfunc expression, reference
+interpreter).
 
-def main : IO Unit := driverLoop (fun _ => .atom "no-model")
+  table, assets, key, val: see ForML/Model/SymbolsSexp.lean
+  ops:
+    (all assets table x head ((key rank)*))
+        -> (all <run> <dask> <pyfunc> <pyfunc2> <valuein> <wf>)
+    run      ::= ((key val)*)                       values of the sinks by the reference interpreter `run`
+    dask     ::= (ok ((key val)*) once) | (error duplicated|notAcyclic|recursion)
+                                                    values of the outputs of the linked job; once = every task of
+                                                    the graph ran exactly once and the graph has one task per symbol
+    pyfunc   ::= (ok val) | (error <PfErr>)         Expression(table)(x)
+    pyfunc2  ::= (ok val val) | (error <PfErr>)     two consecutive calls of one Expression object: x, then (input 1)
+    valuein  ::= ((key val)*) | none                sinks of the table whose head `head` receives `x` (head = none: skipped)
+    wf       ::= true | false                       Table.ranked
+-/
+import ForML.Model.Sexp
+import ForML.Model.SymbolsSexp
+import ForML.Model.TableWF
+import ForML.Model.Dask
+import ForML.Model.PyFunc
+open ForML ForML.Flow ForML.Flow.PyFunc
+
+def rankOf? : Sexp → Option (Key → Nat)
+  | .list ps => do
+    let tbl ← ps.mapM (fun p => match p with
+      | .list [k, r] => do pure ((← Key.ofSexp? k), (← r.nat?))
+      | _ => none)
+    pure (fun k => ((tbl.find? (fun p => p.1 = k)).map (·.2)).getD 0)
+  | _ => none
+
+def pfErrName : PfErr → String
+  | .assertion => "assertion" | .keyError => "keyError" | .indexError => "indexError" | .typeError => "typeError"
+  | .valueError => "valueError" | .unexpected => "unexpected" | .noAssets => "noAssets" | .recursion => "recursion"
+  | .unsupported => "unsupported"
+
+def daskErrName : DaskErr → String
+  | .duplicated => "duplicated" | .notAcyclic => "notAcyclic" | .recursion => "recursion"
+
+def kvs (m : Memo) (ks : List Key) : Sexp :=
+  .list (ks.map fun k => .list [k.toSexp, match m.get k with | some v => v.toSexp | none => .atom "missing"])
+
+def runOut (A : Option Assets) (t : Table) : Sexp := kvs (run A t) t.sinks
+
+def daskOut (A : Option Assets) (t : Table) : Sexp :=
+  match mkjob t with
+  | .error e => .list [.atom "error", .atom (daskErrName e)]
+  | .ok job =>
+    let m := evalDask A job
+    let once := m.trace.length == job.graph.length && !hasDup m.trace && job.graph.length == t.length
+    .list [.atom "ok", kvs m job.outputs, Sexp.ofBool once]
+
+def pyfuncOut (A : Option Assets) (t : Table) (x : Val) : Sexp :=
+  match evalExpr A t x with
+  | .ok v => .list [.atom "ok", v.toSexp]
+  | .error e => .list [.atom "error", .atom (pfErrName e)]
+
+def pyfunc2Out (A : Option Assets) (t : Table) (x : Val) : Sexp :=
+  match evalExprTwice A t x (.input 1) with
+  | .ok (v, w) => .list [.atom "ok", v.toSexp, w.toSexp]
+  | .error e => .list [.atom "error", .atom (pfErrName e)]
+
+def valueInOut (A : Option Assets) (t : Table) (h : Key) (x : Val) : Sexp :=
+  .list (t.sinks.map fun k => .list [k.toSexp, (valueIn A t h x t.fuel k).toSexp])
+
+def stepC02 : Sexp → Sexp
+  | .list [.atom "all", assets, tbl, x, h, rk] =>
+    match Assets.ofSexp? assets, Table.ofSexp? tbl, Val.ofSexp? x, rankOf? rk with
+    | some A, some t, some x, some r =>
+      let vin := match h with
+        | .atom "none" => some (.atom "none")
+        | hk => (Key.ofSexp? hk).map fun h => valueInOut A t h x
+      match vin with
+      | none => .atom "bad-op"
+      | some vin =>
+        .list [.atom "all", runOut A t, daskOut A t, pyfuncOut A t x, pyfunc2Out A t x, vin, Sexp.ofBool (t.ranked r)]
+    | _, _, _, _ => .atom "bad-op"
+  | _ => .atom "bad-op"
+
+def main : IO Unit := driverLoop stepC02
